@@ -56,8 +56,33 @@ impl<L: ChainListener> VxListeners<L> {
 }
 #[verifier::external_body]
 pub struct VxValidatorFactory { _p: u8 }
+// RefCell<BlockDecodeState>: the block that is being streamed in chunks (chain/tracker.rs BlockDecodeState: offset, block
+// hash announced with the chunks, the push decoder); `into_inner` hands out the state, `decoder.finish()` says whether the
+// chunks made up one complete block
 #[verifier::external_body]
 pub struct VxDecodeState { _p: u8 }
+#[verifier::external_body]
+pub struct VxDecoder { _p: u8 }
+#[verifier::external_body]
+pub struct VxDecodeErr { _p: u8 }
+pub struct VxDecodeInner { pub decoder: VxDecoder, pub block_hash: BlockHash }
+impl VxDecodeState {
+    pub uninterp spec fn announced_hash(&self) -> BlockHash;
+    pub uninterp spec fn complete(&self) -> bool;
+    #[verifier::external_body]
+    pub fn into_inner(self) -> (r: VxDecodeInner) ensures r.block_hash == self.announced_hash(), r.decoder.finishes() == self.complete() { unimplemented!() }
+}
+impl VxDecoder {
+    pub uninterp spec fn finishes(&self) -> bool;
+    #[verifier::external_body]
+    pub fn finish(self) -> (r: Result<(), VxDecodeErr>) ensures r.is_ok() == self.finishes() { unimplemented!() }
+}
+pub trait VxDecodeErrMap: Sized { fn vx_block_decode_error(self) -> (r: Result<(), Error>) ensures r.is_ok() == self.vx_dec_ok(); spec fn vx_dec_ok(self) -> bool; }
+impl VxDecodeErrMap for Result<(), VxDecodeErr> {
+    open spec fn vx_dec_ok(self) -> bool { self.is_ok() }
+    #[verifier::external_body]
+    fn vx_block_decode_error(self) -> (r: Result<(), Error>) { unimplemented!() }
+}
 #[verifier::external_body]
 pub struct ValidationErrorDbg { _p: u8 }
 
@@ -97,7 +122,12 @@ pub open spec fn tracker_same<L: ChainListener>(a: ChainTracker<L>, b: ChainTrac
 }
 pub open spec fn take_front(s: Seq<Headers>, n: int) -> Seq<Headers> { if s.len() <= n { s } else { s.take(n) } }
 
-pub uninterp spec fn streamed_block_is(proof: TxoProof, hash: BlockHash) -> bool;
+// a block was streamed in chunks exactly when the proof says so, and then the chunks made up one complete block whose
+// announced hash is `hash`
+pub open spec fn streamed_block_is(pending: Option<VxDecodeState>, proof: TxoProof, hash: BlockHash) -> bool {
+    (proof.proof is ExternalBlock) == pending.is_some()
+    && (pending.is_some() ==> pending->Some_0.complete() && pending->Some_0.announced_hash() == hash)
+}
 pub uninterp spec fn listeners_told(hash: BlockHash, is_remove: bool) -> bool;
 
 impl<L: ChainListener> ChainTracker<L> {
@@ -109,20 +139,13 @@ impl<L: ChainListener> ChainTracker<L> {
     fn notify_listeners_remove(&mut self, txs: Option<&[Transaction]>, block_hash: BlockHash)
         ensures listeners_told(block_hash, true), final(self).headers == old(self).headers, final(self).tip == old(self).tip, final(self).height == old(self).height,
             final(self).network == old(self).network, final(self).trusted_oracle_pubkeys == old(self).trusted_oracle_pubkeys,
-            final(self).allow_deep_reorgs == old(self).allow_deep_reorgs,
+            final(self).allow_deep_reorgs == old(self).allow_deep_reorgs, final(self).decode_state == old(self).decode_state,
     { unimplemented!() }
     #[verifier::external_body]
     fn notify_listeners_add(&mut self, txs: Option<&[Transaction]>, block_hash: BlockHash)
         ensures listeners_told(block_hash, false), final(self).headers == old(self).headers, final(self).tip == old(self).tip, final(self).height == old(self).height,
             final(self).network == old(self).network, final(self).trusted_oracle_pubkeys == old(self).trusted_oracle_pubkeys,
-            final(self).allow_deep_reorgs == old(self).allow_deep_reorgs,
-    { unimplemented!() }
-    // maybe_finish_decoding_block only consumes the transient decode state; Ok means: if a block was streamed in chunks, it
-    // decoded completely and its hash is the expected one (`streamed_block_is`: uninterpreted marker of that check)
-    #[verifier::external_body]
-    fn maybe_finish_decoding_block(&mut self, proof: &TxoProof, expected_block_hash: &BlockHash) -> (r: Result<(), Error>)
-        ensures tracker_same(*final(self), *old(self)), final(self).allow_deep_reorgs == old(self).allow_deep_reorgs,
-            r.is_ok() ==> streamed_block_is(*proof, *expected_block_hash),
+            final(self).allow_deep_reorgs == old(self).allow_deep_reorgs, final(self).decode_state == old(self).decode_state,
     { unimplemented!() }
     #[verifier::external_body]
     fn vx_validator_validate_block(&self, proof: &TxoProof, height: u32, header: &BlockHeader, external: Option<&BlockHash>,
@@ -130,6 +153,16 @@ impl<L: ChainListener> ChainTracker<L> {
         ensures r.is_ok() ==> proof_and_majority_ok(self.listeners, self.trusted_oracle_pubkeys, self.network, *proof, height, *header,
             (match external { Some(h) => Some(*h), None => None }), *prev_filter_header, is_remove),
     { unimplemented!() }
+
+//@fn vls-core/src/chain/tracker.rs :: impl<L: ChainListener> ChainTracker<L> :: maybe_finish_decoding_block props=C13
+    ensures
+        tracker_same(*final(self), *old(self)), final(self).allow_deep_reorgs == old(self).allow_deep_reorgs,
+        // whatever the outcome, the pending stream is consumed: the next request starts clean
+        final(self).decode_state.is_none(),                                                          //[C13.finish.consumes-pending-stream]
+        // Ok: a block was streamed exactly if the proof says so, it decoded completely and it is the expected block
+        r.is_ok() ==> streamed_block_is(old(self).decode_state, *proof, *expected_block_hash),       //[C13.finish.streamed-block-is-expected]
+//@sub /(?s)\.map_err\(\|e\| \{\s*Error::BlockDecodeError\s*\}\)/ => .vx_block_decode_error()
+//@end
 
 //@fn vls-core/src/chain/tracker.rs :: impl<L: ChainListener> ChainTracker<L> :: validate_block props=C13 optiters
     requires height < 0x7fff_ffff, prev_headers.0.time <= 0xffff_0000,
@@ -149,7 +182,9 @@ impl<L: ChainListener> ChainTracker<L> {
             (if proof.proof is ExternalBlock { Some(hdr_hash(header)) } else { None }),
             old(self).tip, Headers(header, proof_filter_header(proof)), proof, false),              //[C13.add.validated]
         // the block that was streamed in chunks (if any) and the block the monitors are told about are THIS block
-        r.is_ok() ==> streamed_block_is(proof, hdr_hash(header)),                                    //[C13.add.streamed-block-is-this-block]
+        r.is_ok() ==> streamed_block_is(old(self).decode_state, proof, hdr_hash(header)),             //[C13.add.streamed-block-is-this-block]
+        // accepted or refused, no streamed block is left pending, so that a later correct request still succeeds
+        final(self).decode_state.is_none(),                                                          //[C13.add.no-stream-left-pending]
         r.is_ok() ==> listeners_told(hdr_hash(header), false),                                       //[C14.add.monitors-told-this-block]
         r.is_ok() ==> final(self).tip == Headers(header, proof_filter_header(proof))
             && final(self).height == old(self).height + 1
@@ -167,7 +202,8 @@ impl<L: ChainListener> ChainTracker<L> {
             supplied_prev_headers, old(self).tip, proof, true),                                     //[C13.remove.validated]
         // the block that was streamed in chunks (if any) and the block the monitors are told about are the block that is
         // REMOVED, i.e. the current tip (not its predecessor)
-        r.is_ok() ==> streamed_block_is(proof, hdr_hash(old(self).tip.0)),                           //[C13.remove.streamed-block-is-removed-block]
+        r.is_ok() ==> streamed_block_is(old(self).decode_state, proof, hdr_hash(old(self).tip.0)),    //[C13.remove.streamed-block-is-removed-block]
+        final(self).decode_state.is_none(),                                                          //[C13.remove.no-stream-left-pending]
         r.is_ok() ==> listeners_told(hdr_hash(old(self).tip.0), true),                               //[C14.remove.monitors-told-removed-block]
         r.is_ok() && old(self).headers@.len() > 0 ==> supplied_prev_headers.0 == old(self).headers@[0].0
             && supplied_prev_headers.1 == old(self).headers@[0].1,                                   //[C13.remove.prev-is-remembered]
